@@ -89,8 +89,23 @@ def make_resilient(mod, ctx):
                     last = tb
                     tb = tb.tb_next
                 fname = os.path.abspath(last.tb_frame.f_code.co_filename) if last is not None else here
-                if fname.startswith(here) or depth["n"] > 1:
+                if depth["n"] > 1:
                     raise
+                if fname.startswith(here):
+                    # raised by a harness frame.  On the validated tree that is a defect of the harness (exit 2).  On a tree that
+                    # differs from the validated one it almost always means that the implementation handed the probe something of
+                    # another shape / type than the validated code does and the probe could not evaluate it: the correspondence of
+                    # this probe is broken - reported as such (a tie failure, so the run goes on to search for a failing input)
+                    # instead of ending the whole check as an infrastructure error.
+                    if not getattr(ctx, "changed_files", None) or not isinstance(
+                            e, (IndexError, KeyError, ValueError, TypeError, ZeroDivisionError, AttributeError, OverflowError)):
+                        raise
+                    import traceback as _tb
+                    ctx.fail("corr", f"{mod.__name__.split('.')[-1]}.{name}.harness_exception",
+                             {"probe": name, "seed": ctx.seed, "tier": "thorough" if ctx.thorough else "quick"},
+                             {"name": f"probe {name} could not be evaluated on this tree", "exception": f"{type(e).__name__}: {e}"[:400],
+                              "where": f"{fname}:{last.tb_lineno}", "traceback_tail": _tb.format_exception(type(e), e, e.__traceback__)[-4:]})
+                    return None
                 import traceback as _tb
                 ctx.fail("oracle", f"{mod.__name__.split('.')[-1]}.{name}.escaped_exception",
                          {"probe": name, "seed": ctx.seed, "tier": "thorough" if ctx.thorough else "quick"},
